@@ -11,8 +11,10 @@ namespace Jade.Sys
 
 theorem gateInv_step {s s' : Sys} {op : Op} (hi : GateInv s) (h : step s op = some s') : GateInv s' := by
   have hr := roleInv_step hi.role h
-  obtain ⟨c3, c4, c5⟩ := gateInv_step_c hr hi h
-  exact ⟨hr, gateInv_step_a hr hi h, gateInv_step_b hr hi h, c3, c4, c5⟩
+  obtain ⟨c_flags, c_once⟩ := gateInv_step_a hr hi h
+  obtain ⟨c_completeOut, c_late⟩ := gateInv_step_b hr hi h
+  have c_cancelOut := gateInv_step_c hr hi h
+  exact ⟨hr, c_flags, c_completeOut, c_cancelOut, c_late, c_once⟩
 
 theorem gateInv_run {s s' : Sys} (ops : List Op) (hi : GateInv s) (h : run s ops = some s') : GateInv s' := by
   induction ops generalizing s with
